@@ -77,4 +77,4 @@ def wrappers(pp, rng):
 INPUTS = ["", " ", "\t", "\n", "\r\n", "a", "ab", "ab ab", "ab a", "abab", "War and Peace", " ab\tab\n", "é", "ab é", "3", "3 a a a", "2 ab ab", "(a (b) c)",
           "[a [b] c", '"a\\"b"', "'x\ny'", "<<q>>", "a:a", "ab:ab", "1:1", "1:10", "1.5e3", "-7", "0x1F", "1.2.3.4", "::1",
           "aa:bb:cc:dd:ee:ff", "2020-01-02T03:04:05", "a,b,,c", "a;b;", "#c\nab", "/* c */ ab", "ab+ab*ab", "-ab", "[ab?ab:ab]",
-          "<a href='x'>", "</a>", "&amp;", "  a\n  b\n    c\n", "a\n\tb", "ab" * 30, " " * 40, "a\x00b", "ab\n\nab\n", "a b c d e"]
+          "<a href='x'>", "</a>", "&amp;", '"\\189"', '"a\\2019\\b"', "'\\x4g \\u12 \\777 \\t'", '"\\', '"\\x41\\101\\u0041"', "  a\n  b\n    c\n", "a\n\tb", "ab" * 30, " " * 40, "a\x00b", "ab\n\nab\n", "a b c d e"]
